@@ -37,6 +37,7 @@ type FuncSpec struct {
 	Extern    bool
 	Pure      bool // extern only: result is a function of receiver+args, no effects
 	Requires  []*Clause
+	Assumes   []*Clause // assumptions at entry that callers need not establish (named assumptions only; listed in evidence)
 	Ensures   []*Clause
 	Modifies  []string // location patterns; "*" = everything
 	ModTags   []string
@@ -110,7 +111,7 @@ type WriterRule struct {
 	Line    int
 }
 
-var keywordRe = regexp.MustCompile(`^(requires|ensures|modifies|bundle|use|axiom|inline|trusted|loop|at|ghost|wraps|func|pred|pure|extern|singleton|receiver|alias|opaque|runtags|lemma|writers|callers|forbid|params|results|nopanic|terminates|maypanic)\b`)
+var keywordRe = regexp.MustCompile(`^(requires|ensures|assume|modifies|bundle|use|axiom|inline|trusted|loop|at|ghost|wraps|func|pred|pure|extern|singleton|receiver|alias|opaque|runtags|lemma|writers|callers|forbid|params|results|nopanic|terminates|maypanic)\b`)
 
 func newContracts() *Contracts {
 	return &Contracts{
@@ -398,6 +399,16 @@ func ParseContracts(file string, c *Contracts) error {
 			cur.Terminate = true
 		case "maypanic":
 			cur.MayPanic = true
+		case "assume":
+			if cur == nil {
+				return fmt.Errorf("%s:%d: assume outside func", file, line)
+			}
+			cl, err := mkClause("assume", rest, line)
+			if err != nil {
+				return err
+			}
+			cur.Assumes = append(cur.Assumes, cl)
+			c.Scan = append(c.Scan, fmt.Sprintf("ASSUMED at entry of %s (not checked at call sites): %s", cur.Key, cl.Text))
 		case "requires", "ensures":
 			if cur == nil {
 				return fmt.Errorf("%s:%d: %s outside func", file, line, kw)
@@ -458,6 +469,23 @@ func ParseContracts(file string, c *Contracts) error {
 				return fmt.Errorf("%s:%d: loop ordinal: %v", file, line, err)
 			}
 			r2 = strings.TrimSpace(r2)
+			if strings.HasPrefix(r2, "use ") {
+				b := c.Bundles[strings.TrimSpace(r2[4:])]
+				if b == nil {
+					return fmt.Errorf("%s:%d: unknown bundle %q", file, line, r2[4:])
+				}
+				ls := cur.Loops[idx]
+				if ls == nil {
+					ls = &LoopSpec{}
+					cur.Loops[idx] = ls
+				}
+				for _, en := range b.Ensures {
+					cp := *en
+					cp.Kind = "invariant"
+					ls.Invariants = append(ls.Invariants, &cp)
+				}
+				continue
+			}
 			if !strings.HasPrefix(r2, "invariant") {
 				return fmt.Errorf("%s:%d: expected 'invariant'", file, line)
 			}
